@@ -1,5 +1,5 @@
 (* C02 - Uni: delivery order and capacity behave as one atomic bounded FIFO queue (ring level). *)
-From RM Require Import RingModel RingInv RingProps RingCov RingRun.
+From RM Require Import RingModel RingInv RingProps RingCov RingRun FullSync.
 
 (* FIFO: receives (in release order) are exactly a prefix of the accepted events in acceptance order; both orders are
    the orders of the linearisation accesses (tail CAS / head CAS), which lie inside the respective calls *)
@@ -51,3 +51,33 @@ Proof.
   vm_compute. repeat split; reflexivity.
 Qed.
 Print Assumptions C02_ring_empty_refuted.
+
+(* ---------------------------------------------------------------------------------------------------------------
+   Full-sync ring: capacity, and full / empty answers that are EXACT (test and update happen in one step under the
+   flag) - no exception class *)
+Theorem C02_fs_capacity :
+  forall N, 0 < N -> forall evs, let s := fold_left (fexecZ N) evs finit in 0 <= ftail s - fhead s <= N.
+Proof. exact fs_capacity. Qed.
+Print Assumptions C02_fs_capacity.
+
+Theorem C02_fs_full_exact :
+  forall N s t v,
+    fthr s t = FPL v -> flock s = false ->
+    (fthr (fstepZ N s t) t = FPU v None <-> N <= ftail s - fhead s) /\
+    (fthr (fstepZ N s t) t = FPU v (Some (ftail s - fhead s + 1)) <-> ftail s - fhead s < N).
+Proof. exact fs_full_exact. Qed.
+Print Assumptions C02_fs_full_exact.
+
+Theorem C02_fs_empty_exact :
+  forall N s t,
+    fthr s t = FCL -> flock s = false ->
+    (fthr (fstepZ N s t) t = FCU None <-> ftail s - fhead s <= 0).
+Proof. exact fs_empty_exact. Qed.
+Print Assumptions C02_fs_empty_exact.
+
+Theorem C02_fs_mutual_exclusion :
+  forall N, 0 < N -> forall evs t u,
+    let s := fold_left (fexecZ N) evs finit in
+    holds_lock (fthr s t) = true -> holds_lock (fthr s u) = true -> t = u.
+Proof. exact fs_mutual_exclusion. Qed.
+Print Assumptions C02_fs_mutual_exclusion.
